@@ -18,7 +18,7 @@ def main():
     ip = interp.Interp(prog, params)
     ip.calltrace = '--calls' in args; ip.trace = '--trace' in args
     entry = args[0]
-    work = [[]]; n = 0; t = time.time(); stats = {}
+    work = [[]]; n = 0; t = time.time(); stats = {}; seen = set()
     maxp = int(params.get('maxpaths', 100000))
     def body():
         nonlocal n
@@ -27,9 +27,11 @@ def main():
             r = ip.run_path(entry, p); n += 1
             stats[r.status] = stats.get(r.status, 0) + 1
             work.extend(r.siblings)
-            if r.status in ('unsupported', 'panic', 'budget') or r.violations or '-v' in args:
-                print(n, r.status, r.detail, 'steps', r.steps, 'q', r.queries, 'tags', r.tags, 'dec', r.decisions[:60])
-                for v in r.violations: print('   VIOLATION', v['check'], v['msg'], v['inputs'], 'sched', v['sched'])
+            key = (r.status, r.detail, tuple(v['check'] for v in r.violations))
+            if (r.status in ('unsupported', 'panic', 'budget') or r.violations) and key not in seen or '-v' in args:
+                seen.add(key)
+                print(n, r.status, r.detail, 'steps', r.steps, 'q', r.queries, 'tags', r.tags, 'ndec', len(r.decisions))
+                for v in r.violations: print('   VIOLATION', v['check'], v['msg'], [(i['name'], i['value']) for i in (v['inputs'] or [])], 'sched', v['sched'])
             if '-v' in args: print('   checks', r.checks, 'covers', r.covers)
     th = threading.Thread(target=body); th.start(); th.join()
     print("paths", n, stats, "queries", ip.solver.queries, ip.solver.stats, "solver %.2fs total %.2fs" % (ip.solver.time, time.time() - t), "left", len(work))
